@@ -314,6 +314,7 @@ def run_world(spec, argv, child_hook=None, warnings=None, probe=True,
     prev_mod = worldrt.install(built)
     out, err = Capture(), Capture()
     saved_streams = (sys.stdout, sys.stderr, sys.stdin)
+    saved_syspath = list(sys.path)
     saved_names = (R.subprocess, R.threading, R.time)
     import logging
     root_logger = logging.getLogger()
@@ -386,6 +387,7 @@ def run_world(spec, argv, child_hook=None, warnings=None, probe=True,
             _real_threading.settrace(None)
             _real_threading.setprofile(None)
         R.subprocess, R.threading, R.time = saved_names
+        sys.path[:] = saved_syspath
         # the Logging feature adds a NullHandler per run and never removes it
         root_logger.handlers[:] = saved_handlers
         worldrt.TRACE, worldrt.VPID, worldrt.PROBE = saved_trace
